@@ -52,6 +52,73 @@ def sami_find_lang(c):
     c.ensure("language_of_the_paragraph", r == want)
 
 
+def webvtt_write_language(c, layout_clauses=False):
+    """WebVTTWriter.write: exactly the captions of ONE language are converted, in order - the named one (`lang=`), the
+    first one when none is named, none when the named language is absent - and the language-level layout the cues fall
+    back to (`global_layout`) is that language's, set before the first caption is converted.  One or two languages of
+    any length; `_convert_caption` by a recording stub, `deepcopy` by identity (C09 is about the copy)."""
+    import z3
+    from pyvc import heap, sym
+    from pyvc.heap import SymList, SymRef, SEQ, INT, declare, loop_rule, as_seq
+    from pyvc.sym import cur
+    from pycaption import WebVTTWriter, Caption
+    heap.install(c.interp)
+    p = cur()
+    k = c.pick("languages", [1, 2])
+    lang = c.pick("lang", [None, "l0", "l1", "zz"])
+    LAYOUTS = ["layout-of-l0", "layout-of-l1"]
+    lists = [SymList(z3.Const(f"captions_{i}", SEQ), Caption, attrs={"layout_info": LAYOUTS[i]}) for i in range(k)]
+    p.assume(z3.Or(*[z3.Length(l.t) > 0 for l in lists]))             # (an empty set returns the bare header: separate path below)
+    cs = c.new(CS, _captions={f"l{i}": lists[i] for i in range(k)}, _styles={}, layout_info=None)
+    w = c.new(WebVTTWriter, global_layout="stale layout of an earlier write", video_width=None, video_height=None, relativize=True, fit_to_screen=True)
+    seen = []
+
+    def h_convert(interp, fn, args, kw):
+        seen.append(args[0].global_layout if hasattr(args[0], "global_layout") else interp.getattr(args[0], "global_layout"))
+        return args[2]                                    # the caption itself stands for its cue block
+    CONV = z3.Function("CONVERTED", SEQ, INT, SEQ)          # identity map of the prefix (the stub returns the caption)
+
+    def inv(S):
+        seq = S.seq.t
+        S.p.assume(z3.Implies(S.i < S.n, z3.SubSeq(seq, 0, S.i + 1) == z3.Concat(z3.SubSeq(seq, 0, S.i), z3.Unit(seq[S.i]))))
+        S.p.assume(z3.SubSeq(seq, 0, S.n) == seq)
+        return [("cue_blocks_are_the_captions_of_the_language_so_far", as_seq(S.local("__comp")) == z3.SubSeq(seq, 0, S.i))]
+    c.interp.loop_hooks[("pycaption.webvtt:WebVTTWriter.write", ("comp", 1))] = loop_rule("convert.comp", inv, locals_={"__comp": ("seq", Caption)})
+    joined = []
+
+    class Joined(str):
+        pass
+    old_getattr = c.interp.getattr
+
+    def join_hook(o, name):
+        if isinstance(o, str) and name == "join":
+            def join(xs):
+                if isinstance(xs, SymList):
+                    joined.append(xs)
+                    return Joined("<cue blocks>")
+                return o.join(xs)
+            return join
+        return old_getattr(o, name)
+    c.interp.getattr = join_hook
+    c.interp.contracts.update({"pycaption.webvtt:WebVTTWriter._convert_caption": h_convert,
+                               "copy:deepcopy": lambda interp, fn, args, kw: args[0]})
+    r = c.call(WebVTTWriter.write, w, cs, lang, compare=False)
+    want = 0 if lang in (None, "l0") else 1 if (lang == "l1" and k == 2) else None
+    if want is None:
+        c.ensure("an_absent_language_yields_no_cue", not joined or z3.Length(joined[0].t) == 0)
+    else:
+        c.ensure("one_join_of_the_cue_blocks", len(joined) == 1)
+        if joined:
+            c.ensure("exactly_the_captions_of_the_selected_language_in_order", joined[0].t == lists[want].t)
+        if not layout_clauses:
+            return               # (which layout the cues fall back to is C12's clause, not C14's)
+        layout_then = c.interp.getattr(w, "global_layout")
+        exp_layout = LAYOUTS[want]
+        nonempty = z3.Length(lists[want].t) > 0
+        c.ensure("fallback_layout_is_that_of_the_selected_language", z3.Implies(nonempty, z3.BoolVal(layout_then == exp_layout)))
+        c.ensure("fallback_layout_set_before_any_caption_is_converted", all(x == exp_layout or x is None for x in seen))
+
+
 # ------------------------------------------------------------------------------------ bounded
 
 def gen_set(rng, nlangs):
@@ -206,6 +273,8 @@ def run(ctx):
     P("sami.SAMIParser._find_lang", sami_find_lang, functions=[SAMIParser._find_lang])
     # the merge of concurrent captions (legacy / single-position DFXP writers) works language by language: a language
     # without captions is left alone and receives nothing from its neighbours (contract shared with C19)
+    from pycaption import WebVTTWriter
+    P("webvtt.WebVTTWriter.write/language", webvtt_write_language, functions=[WebVTTWriter.write], crosscheck=False)
     import props.C19 as C19
     P("base.merge_concurrent_captions", C19.mcc, functions=[C19.merge_concurrent_captions], setup_interp=C19.setup, crosscheck=False)
     ctx.bounded("multi_language", "caption sets with 1-4 languages, cues sorted and non-overlapping within a language, with "
